@@ -647,6 +647,9 @@ func (g *edGen) bundle(w *edW, b *edBoard, scope []string, d int, x, y []string)
 	decl := edRel(x[len(scope):]) + " " + a + " " + edRel(y[len(scope):])
 	b.ensure(x)
 	b.ensure(y)
+	// all declarations first, the index keys afterwards (an index key may only refer to a
+	// connection declared above it)
+	var later []string
 	for i := 0; i < n; i++ {
 		idx := b.edges[k]
 		b.edges[k]++
@@ -655,11 +658,14 @@ func (g *edGen) bundle(w *edW, b *edBoard, scope []string, d int, x, y []string)
 			w.line(d, decl+": "+g.label())
 		default:
 			w.line(d, decl)
-			w.line(d, fmt.Sprintf("(%s)[%d].label: %s", decl, idx, g.label()))
+			later = append(later, fmt.Sprintf("(%s)[%d].label: %s", decl, idx, g.label()))
 			if r.P(0.4) {
-				w.line(d, fmt.Sprintf("(%s)[%d].style.stroke: %s", decl, idx, Pick(r, []string{"red", "blue"})))
+				later = append(later, fmt.Sprintf("(%s)[%d].style.stroke: %s", decl, idx, Pick(r, []string{"red", "blue"})))
 			}
 		}
+	}
+	for _, l := range later {
+		w.line(d, l)
 	}
 	g.feat["parallel-bundle"] = true
 }
